@@ -336,6 +336,16 @@ fn oracle_inner(max_samples: usize, max_flows: usize, rounds: &[RoundIn]) -> Vec
     fails
 }
 
+/// default-flow totals of a snapshot against an independent recomputation from the published rounds
+pub fn totals_oracle(st: &State, rounds: &[RoundIn], max_samples: usize) -> Vec<String> {
+    let mut fails = vec![];
+    let agg0 = recompute(rounds, max_samples, &|_| true);
+    check_hops("flow0", st.hops(), &agg0, max_samples, &mut fails);
+    if st.round_count(FlowId(0)) != rounds.len() { fails.push("C01:totals:round_count".to_string()); }
+    fails.truncate(6);
+    fails
+}
+
 // ---------------------------------------------------------------- generation
 fn gen_rounds(rng: &mut Rng, valid_only: bool) -> (usize, usize, Vec<RoundIn>) {
     let max_samples = *rng.pick(&[0usize, 1, 2, 3, 10, 256]);
